@@ -201,6 +201,12 @@ def battery(focus=None):
                   ('rotate', A), ('flush',), ('major_compact', A), ('check',)]
     P['tiny-memtable'] = [('ks', A, 'memtable=64'), ('insert', A, k1, '31' * 30), ('insert', A, k2, '32' * 30), ('insert', A, k3, '33' * 30), ('flush',), ('check',),
                           ('remove', A, k2), ('insert', A, k4, '34' * 30), ('flush',), ('check',)]
+    # a batch remove of a key whose older version is on disk and whose newer version is in the memtable: flushing that memtable (after the GC watermark moved on)
+    # must leave the key removed (a remove journaled / applied as a *weak* tombstone would cancel against the newer version only)
+    P['batch-remove-over-flushed'] = [('ks', A), ('ks', B), ('insert', A, k1, '7631'), ('insert', A, k2, '32'), ('rotate', A), ('flush',), ('insert', A, k1, '7632'),
+                                      ('batch', [('remove', A, k1), ('insert', B, k1, '41')]), ('check',), ('rotate', B), ('flush',), ('rotate', A), ('flush',), ('check',), ('major_compact', A), ('check',)]
+    P['remove-over-flushed'] = [('ks', A), ('ks', B), ('insert', A, k1, '7631'), ('rotate', A), ('flush',), ('insert', A, k1, '7632'), ('remove', A, k1), ('insert', B, k1, '41'), ('check',),
+                                ('rotate', B), ('flush',), ('rotate', A), ('flush',), ('check',), ('major_compact', A), ('check',)]
     # a recovered keyspace must behave like a freshly created one: clear / ingestion / flush right after a reopen, then scans vs. point reads
     P['reopened-clear'] = [('ks', A), ('ks', B), ('insert', A, k1, '31'), ('insert', A, k2, '32'), ('insert', B, k1, '41'), ('reopen',), ('clear', A), ('check',), ('insert', A, k3, '33'), ('check',),
                            ('reopen',), ('insert', B, k2, '42'), ('rotate', B), ('flush',), ('clear', B), ('check',)]
